@@ -22,16 +22,20 @@ QUICK_FIELDS = (
     Field("e", 3, "enum:Color", "oneof", group="g1"),
     Field("sub", 4, "msg:Sub", "oneof", group="g2"), Field("b", 5, "bool", "oneof", group="g2"),
     Field("p", 6, "int32"),
+    # members whose python value is not a Message although the field is one on the wire
+    Field("t", 9, "timestamp", "oneof", group="g3"), Field("u", 11, "duration", "oneof", group="g3"),
+    Field("w", 12, "wrap:int32", "oneof", group="g3"),
 )
 THOROUGH_EXTRA = (
     Field("y", 7, "bytes", "oneof", group="g3"), Field("d", 8, "double", "oneof", group="g3"),
-    Field("t", 9, "timestamp", "oneof", group="g3"), Field("o", 10, "int32", "optional"),
+    Field("o", 10, "int32", "optional"),
 )
 VALUES = {
     "i": [0, 5], "s": ["", "x"], "e": [0, 1], "sub": [{}, {"a": 1}], "b": [False, True],
     "y": [b"", b"\x01"], "d": [0.0, 2.5], "t": [av.EPOCH, av.TS_ALPHA[3]],
+    "u": [av.DUR_ALPHA[0], av.DUR_ALPHA[3]], "w": [0, 7],
 }
-JSON_NAME = {"i": "i", "s": "s", "e": "e", "sub": "sub", "b": "b", "y": "y", "d": "d", "t": "t"}
+JSON_NAME = {"i": "i", "s": "s", "e": "e", "sub": "sub", "b": "b", "y": "y", "d": "d", "t": "t", "u": "u", "w": "w"}
 
 
 class OneofSpace(Space):
@@ -66,6 +70,13 @@ class OneofSpace(Space):
         if b == "msg":
             body = wire.make_rec(1, wire.VARINT, v["a"]).raw if v.get("a") else b""
             return wire.make_rec(f.number, wire.LEN, body).raw
+        if b == "wrap":
+            body = wire.make_rec(1, wire.VARINT, v).raw if v else b""
+            return wire.make_rec(f.number, wire.LEN, body).raw
+        if b == "duration":
+            s, n = av.dur_parts(v)
+            body = (wire.make_rec(1, wire.VARINT, s % (1 << 64)).raw if s else b"") + (wire.make_rec(2, wire.VARINT, n % (1 << 64)).raw if n else b"")
+            return wire.make_rec(f.number, wire.LEN, body).raw
         if b == "timestamp":
             s, n = av.ts_parts(v)
             body = (wire.make_rec(1, wire.VARINT, s).raw if s else b"") + (wire.make_rec(2, wire.VARINT, n).raw if n else b"")
@@ -91,14 +102,20 @@ class OneofSpace(Space):
         ops.append(["setplain", 1])
         pm = [(f.name, vi) for f in self.members for vi in range(2)]
         if self.tier == "thorough":
-            pm = [x for x in pm if x[0] in ("i", "s", "sub", "b", "d", "t")]
+            pm = [x for x in pm if x[0] in ("i", "s", "sub", "b", "d", "t", "u")]
+        else:
+            pm = [x for x in pm if x[0] != "w" or x[1] == 0]
         ops.append(["parse", []])
         for a in pm:
             ops.append(["parse", [list(a)]])
         for a in pm:
             for b in pm:
-                if a[0] != b[0] or a[0] != "sub":
-                    ops.append(["parse", [list(a), list(b)]])
+                if a[0] == b[0] == "sub":
+                    continue
+                if self.tier != "thorough" and self.m.field(a[0]).group != self.m.field(b[0]).group \
+                        and not (a[1] == 1 and b[1] == 1):
+                    continue  # quick: members of DIFFERENT groups interleave with non-default values only
+                ops.append(["parse", [list(a), list(b)]])
         dicts = [[["i", 1]], [["s", 0]], [["e", 1]], [["sub", 1]], [["b", 0]],
                  [["i", 1], ["b", 1]], [["i", 1], ["s", 1]], [["s", 1], ["i", 0]], []]
         for d in dicts:
@@ -319,9 +336,11 @@ class OneofSpace(Space):
 
 
 def _jd(o):
-    from datetime import datetime
+    from datetime import datetime, timedelta
     if isinstance(o, bytes):
         return {"$b": o.hex()}
+    if isinstance(o, timedelta):
+        return {"$u": o // av.US}
     if isinstance(o, datetime):
         return {"$t": (o - av.EPOCH) // av.US}
     raise TypeError(type(o))
@@ -332,6 +351,8 @@ def _jh(d):
         return bytes.fromhex(d["$b"])
     if "$t" in d and len(d) == 1:
         return av.EPOCH + d["$t"] * av.US
+    if "$u" in d and len(d) == 1:
+        return d["$u"] * av.US
     return d
 
 
